@@ -146,6 +146,9 @@ func (t *sendTr) sessionPath(e ast.Expr, field ...string) (string, bool) {
 
 func (t *sendTr) bytesArg(e ast.Expr) (string, error) {
 	e = paren(e)
+	if s, ok := t.marshalBytesArg(e); ok { // senders_marshal.go: h.NICInfo.HostLLA.Addr()
+		return s, nil
+	}
 	if c, ok := e.(*ast.CallExpr); ok && len(c.Args) == 1 {
 		if tv, ok := t.info.Types[c.Fun]; ok && tv.IsType() && isByteSlice(tv.Type) {
 			if av, ok := t.info.Types[c.Args[0]]; ok && av.Value != nil && av.Value.Kind() == constant.String {
@@ -598,6 +601,11 @@ func (t *sendTr) sendStmt(s ast.Stmt, next ast.Stmt) (handled bool, skipNext boo
 			}
 		}
 		return true, false, fail("statement %T after the transmission", s)
+	}
+	if t.wrapper { // senders_marshal.go: m := &T{…}; mb, err := m.marshal(); if err != nil { return err }
+		if h, skip, err := t.marshalSendStmt(s, next); h {
+			return true, skip, err
+		}
 	}
 	if is, ok := s.(*ast.IfStmt); ok && is.Init == nil && is.Else == nil {
 		// if Logger.IsDebug() { … }: logging
@@ -1166,6 +1174,10 @@ func (t *sendTr) senderCall(c *ast.CallExpr) (string, error) {
 				}
 				break
 			}
+			if vals, ok := t.marshalRootStruct(c.Args[i], strings.Split(strings.TrimPrefix(k, "struct:"), ","), strings.Split(r.fieldTys[i], ",")); ok {
+				out = append(out, vals...) // senders_marshal.go: a package-level Addr of package packet = its initialiser
+				break
+			}
 			// a package-level / session struct value: one extra argument per field
 			for j, f := range strings.Split(strings.TrimPrefix(k, "struct:"), ",") {
 				n, ok := t.sessionPath(c.Args[i], f)
@@ -1437,7 +1449,7 @@ func senderFacts(pkgs []*packages.Package, root *packages.Package, b *strings.Bu
 	}
 	sort.Slice(cs, func(i, j int) bool { return cs[i].name < cs[j].name })
 	b.WriteString("/- GENERATED by /verif/tools/goextract (senders.go) from the Go sources in /repo — do not edit. -/\n")
-	b.WriteString("import PacketVerif.Gen.Encoders\nimport PacketVerif.Model.SendGo\nset_option linter.unusedVariables false\nnamespace PV.Gen.Send\nopen PV PV.Model\n\n")
+	b.WriteString("import PacketVerif.Gen.Encoders\nimport PacketVerif.Gen.LoopsMarshal\nimport PacketVerif.Model.SendGo\nset_option linter.unusedVariables false\nnamespace PV.Gen.Send\nopen PV PV.Model\n\n")
 	// ICMP.SetChecksum: its own body, through the store forms of the encoder translator
 	cksOK := false
 	if fd := findFunc(root, "ICMP", "SetChecksum"); fd != nil && fd.Body != nil && fd.Recv != nil && len(fd.Recv.List) == 1 && len(fd.Recv.List[0].Names) == 1 {
